@@ -337,9 +337,10 @@ namespace nmtools::utils
                 bool equal = true;
                 // TODO: static assert whenever possible
                 // NOTE: use assert instead of exception, to support compile with -fno-exceptions
-                nmtools_cassert ( (nm_size_t)len(t)==(nm_size_t)len(u)
-                    , "mismatched dimension"
-                );
+                // arrays of different length are different (and must not be read past the shorter one)
+                if ((nm_size_t)len(t)!=(nm_size_t)len(u)) {
+                    return false;
+                }
                 // prefer fixed size for indexing to allow constant index
                 if constexpr (meta::is_fixed_index_array_v<T>) {
                     constexpr auto N = meta::fixed_index_array_size_v<T>;
@@ -399,9 +400,10 @@ namespace nmtools::utils
                     // TODO: static assert whenever possible
                     // NOTE: use assert instead of exception, to support compile with -fno-exceptions
                     // TODO: use maybe type
-                    nmtools_cassert( ((common_t)t_dim == (common_t)u_dim)
-                        , "dimension mismatch for isequal"
-                    );
+                    // arrays of different dimension are different
+                    if ((common_t)t_dim != (common_t)u_dim) {
+                        return false;
+                    }
                 }
                 auto t_shape = ::nmtools::shape(t);
                 auto u_shape = ::nmtools::shape(u);
@@ -412,9 +414,19 @@ namespace nmtools::utils
                 auto u_size = u_indices.size();
                 {
                     using common_t [[maybe_unused]] = meta::promote_index_t<decltype(t_size),decltype(u_size)>;
-                    nmtools_cassert( ((common_t)t_size == (common_t)u_size)
-                        , "size mismatch for isequal"
-                    );
+                    if ((common_t)t_size != (common_t)u_size) {
+                        return false;
+                    }
+                }
+                // same dimension and size but different extents, e.g. (2,3) vs (3,2), are different as well
+                {
+                    constexpr auto t_n = meta::len_v<decltype(t_shape)>;
+                    constexpr auto u_n = meta::len_v<decltype(u_shape)>;
+                    if constexpr (!((t_n > 0) && (u_n > 0) && (t_n != u_n))) {
+                        if (!isequal(t_shape,u_shape)) {
+                            return false;
+                        }
+                    }
                 }
                 using t_t = meta::get_element_or_common_type_t<T>;
                 using u_t = meta::get_element_or_common_type_t<U>;
